@@ -151,7 +151,12 @@ def gen(shard, rng, tier):
                 pre = [a for a in argv if str(a).startswith("--vanity-prefix")][0]
                 digits = pre.split("=", 1)[1] if "=" in pre else argv[argv.index(pre) + 1]
                 nd = max(0, len(digits.strip()) - 2)
-                spec["ent"] = {"MODE": "pass", "CAP": {0: 300, 1: 800, 2: 12000}.get(nd, 190000)}
+                try:
+                    jj = int(argv[argv.index("-j") + 1]) if "-j" in argv else 16
+                except ValueError:
+                    jj = 16
+                from ..run.core import vanity_cap
+                spec["ent"] = {"MODE": "pass", "CAP": vanity_cap(min(nd, 3), jj)}
                 spec["timeout"] = 300
             yield {"j": "cli", "profile": "dev" if rng.random() < 0.4 else "release", "x": {"cls": "cli-" + (argv[0] if argv else "none")},
                    "steps": [{"cli": spec}]}
@@ -261,7 +266,7 @@ def extra_phases(ctx, tier, seed):
             acc = cligen.rand_account(rng, simple=True)
             s = mutgen.hostile_cli(rng, acc["words"])
             if s["argv"] and s["argv"][0] == "new" and any(str(a).startswith("--vanity-prefix") for a in s["argv"]):
-                s["ent"] = {"MODE": "pass", "CAP": 12000}
+                s["ent"] = {"MODE": "pass", "CAP": core.vanity_cap(2, 16)}
                 s["timeout"] = 600
             specs.append(s)
         summ, v = sanitize.asan_cli(specs, ctx.run_dir, ctx.bins.get("interposer"))
